@@ -66,19 +66,36 @@ fn pinned(world: &mut World<'_>, file: &AFile, version: u64, pin: Pin) -> AMeta 
 #[allow(clippy::too_many_arguments)]
 pub fn assemble(world: &mut World<'_>, consistent: bool, ts_version: u64, snap_version: u64,
                 top: &ATargets, roles: &[(usize, ATargets)], pin: Pin, online: &Online, msgs: &mut MsgGen) -> Assembled {
+    assemble_with(world, consistent, ts_version, snap_version, top, roles, pin, online, msgs, &mut |_, _, _| {})
+}
+
+/// like `assemble`; `tweak(which, real_len, meta)` may alter the pinning entry of "targets",
+/// "role:<n>" or "snapshot" before the pinning document is written
+#[allow(clippy::too_many_arguments)]
+pub fn assemble_with(world: &mut World<'_>, consistent: bool, ts_version: u64, snap_version: u64,
+                top: &ATargets, roles: &[(usize, ATargets)], pin: Pin, online: &Online, msgs: &mut MsgGen,
+                tweak: &mut dyn FnMut(&str, u64, &mut AMeta)) -> Assembled {
     let mut server = Vec::new();
     let mut meta_list = Vec::new();
     let top_file = AFile::plain(AContent::Targets(top.clone()));
-    meta_list.push((AMetaKey::Targets, pinned(world, &top_file, top.version, pin)));
+    let mut m = pinned(world, &top_file, top.version, pin);
+    let l = world.file_bytes(&top_file).len() as u64;
+    tweak("targets", l, &mut m);
+    meta_list.push((AMetaKey::Targets, m));
     server.push((AName::Targets(if consistent { Some(top.version) } else { None }), AResp::File(top_file)));
     for (r, doc) in roles {
         let f = AFile::plain(AContent::Targets(doc.clone()));
-        meta_list.push((AMetaKey::Role(*r), pinned(world, &f, doc.version, pin)));
+        let mut m = pinned(world, &f, doc.version, pin);
+        let l = world.file_bytes(&f).len() as u64;
+        tweak(&format!("role:{r}"), l, &mut m);
+        meta_list.push((AMetaKey::Role(*r), m));
         server.push((AName::Role(*r, if consistent { Some(doc.version) } else { None }), AResp::File(f)));
     }
     let snap = ASnapshot { version: snap_version, expires: online.snap_expires, meta: meta_list, msg: msgs.next(), sigs: online.snap_sigs.clone() };
     let snap_file = AFile::plain(AContent::Snapshot(snap.clone()));
-    let sm = pinned(world, &snap_file, snap_version, pin);
+    let mut sm = pinned(world, &snap_file, snap_version, pin);
+    let l = world.file_bytes(&snap_file).len() as u64;
+    tweak("snapshot", l, &mut sm);
     server.push((AName::Snapshot(if consistent { Some(snap_version) } else { None }), AResp::File(snap_file)));
     let ts = ATimestamp { version: ts_version, expires: online.ts_expires, snap: Some(sm), msg: msgs.next(), sigs: online.ts_sigs.clone() };
     server.push((AName::Timestamp, AResp::File(AFile::plain(AContent::Timestamp(ts.clone())))));
